@@ -233,6 +233,9 @@ func main() {
 	genWpRegions(root, out)
 	genPipeWrite(repo, out)
 	genPoolShape(root, out)
+	genPerIPClose(root, out)
+	genPipeShape(root, out)
+	genLBGuard(root, out)
 }
 
 var tableNames = []string{
